@@ -5,14 +5,14 @@ prints one line per (seed, check): DETECTED / missed, with the time."""
 import os, subprocess, sys, shutil, time, glob, json
 from concurrent.futures import ThreadPoolExecutor
 
-def prep(seed):
-    d = "/tmp/mut/%s" % seed
+def prep(seed, tag=""):
+    d = "/tmp/mut/%s%s" % (seed, tag)
     shutil.rmtree(d, ignore_errors=True); os.makedirs(d)
     subprocess.check_call("cp -r /repo/src %s/src && cd %s && git init -q . && git apply /verif/seeded/%s/patch.diff" % (d, d, seed), shell=True)
     return d
 
 def run(seed, pid, tier, workers):
-    d = prep(seed)
+    d = prep(seed, "_" + pid)
     t0 = time.time()
     env = dict(os.environ, VERIF_REPO=d, VERIF_WORKERS=str(workers))
     r = subprocess.run(["/verif/check.py", pid, "--tier", tier, "--no-evidence"], capture_output=True, text=True, env=env, cwd="/verif")
@@ -40,6 +40,9 @@ if __name__ == "__main__":
     for s in seeds:
         if pid == "own":
             work.append((s, s.split("-")[0]))
+        elif pid == "matrix":
+            for q in range(1, 21):
+                work.append((s, "C%02d" % q))
         else:
             work.append((s, pid))
     with ThreadPoolExecutor(max_workers=jobs) as ex:
